@@ -59,7 +59,7 @@ Lemma tiled_full_frame_ok d x y oz r c sr sc oss f :
   tiled_full_frame d f =
   Ok (TFrame (tf_k f / (tf_nt d * d_focal d) + 1) (tf_sl d f + 1)
              (tf_ci d f * d_cols d + 1) (tf_ri d f * d_rows d + 1)
-             (aapply (Aff (rotRD r c sr sc 1) (V3 x y (inject_Z (tf_sl d f) * opt_or oss 1)))
+             (aapply (Aff (rotRD r c sr sc 1) (V3 x y (opt_or oz 0 + inject_Z (tf_sl d f) * opt_or oss 1)))
                      (V3 (inject_Z (tf_ci d f * d_cols d)) (inject_Z (tf_ri d f * d_rows d)) 0))).
 Proof.
   intros (_ & _ & TC & _ & OS & OR & sh & SH & PM) Hsr Hsc Hr Hc HR HC Hfo Hpa Hf.
@@ -110,7 +110,7 @@ Qed.
    for_image(frame_number = f) and the one built by for_image(for_total_pixel_matrix = True)
    satisfy: pixel (i, j) of the frame whose 1-based offsets are (C, R) is pixel
    (C - 1 + i, R - 1 + j) of the total pixel matrix, displaced along z by the focal plane
-   offset minus the Z offset stored in the origin sequence. *)
+   offset; for every Z offset stored (or not) in the origin sequence. *)
 Theorem tiled_full_frame_vs_tpm d x y oz r c sr sc oss f :
   is_tiled_full d x y oz r c sr sc oss -> 0 < sr -> 0 < sc ->
   (1 <= d_rows d)%Z -> (1 <= d_cols d)%Z -> (1 <= d_tpm_rows d)%Z -> (1 <= d_tpm_cols d)%Z ->
@@ -124,8 +124,8 @@ Theorem tiled_full_frame_vs_tpm d x y oz r c sr sc oss f :
     (1 <= tf_focal t <= d_focal d)%Z /\
     (forall i j, veq (aapply Fm (V3 i j 0))
                      (vadd (aapply T (V3 (inject_Z (tf_col t) - 1 + i) (inject_Z (tf_row t) - 1 + j) 0))
-                           (V3 0 0 (inject_Z (tf_focal t - 1) * opt_or oss 1 - opt_or oz 0)))) /\
-    (tf_focal t = 1%Z -> opt_or oz 0 == 0 ->
+                           (V3 0 0 (inject_Z (tf_focal t - 1) * opt_or oss 1)))) /\
+    (tf_focal t = 1%Z ->
      forall i j, veq (aapply Fm (V3 i j 0))
                      (aapply T (V3 (inject_Z (tf_col t) - 1 + i) (inject_Z (tf_row t) - 1 + j) 0))).
 Proof.
@@ -133,7 +133,7 @@ Proof.
   pose proof (tiled_full_frame_ok d x y oz r c sr sc oss f W Hsr Hsc Hr Hc HR HC Hfo Hpa Hf) as TF.
   destruct (tile_offsets_in_range d f Hr Hc HR HC ltac:(lia)) as (BC & BR).
   eexists. exists (Aff (rotRD r c sr sc 1)
-                   (aapply (Aff (rotRD r c sr sc 1) (V3 x y (inject_Z (tf_sl d f) * opt_or oss 1)))
+                   (aapply (Aff (rotRD r c sr sc 1) (V3 x y (opt_or oz 0 + inject_Z (tf_sl d f) * opt_or oss 1)))
                            (V3 (inject_Z (tf_ci d f * d_cols d)) (inject_Z (tf_ri d f * d_rows d)) 0))).
   exists (Aff (rotRD r c sr sc 1) (V3 x y (opt_or oz 0))).
   split; [exact TF|]. split.
@@ -147,21 +147,21 @@ Proof.
   split; [lia|]. split; [lia|]. split; [lia|].
   assert (GEN : forall i j,
     veq (aapply (Aff (rotRD r c sr sc 1)
-                   (aapply (Aff (rotRD r c sr sc 1) (V3 x y (inject_Z (tf_sl d f) * opt_or oss 1)))
+                   (aapply (Aff (rotRD r c sr sc 1) (V3 x y (opt_or oz 0 + inject_Z (tf_sl d f) * opt_or oss 1)))
                            (V3 (inject_Z (tf_ci d f * d_cols d)) (inject_Z (tf_ri d f * d_rows d)) 0))) (V3 i j 0))
         (vadd (aapply (Aff (rotRD r c sr sc 1) (V3 x y (opt_or oz 0)))
                       (V3 (inject_Z (tf_ci d f * d_cols d + 1) - 1 + i) (inject_Z (tf_ri d f * d_rows d + 1) - 1 + j) 0))
-              (V3 0 0 (inject_Z (tf_sl d f + 1 - 1) * opt_or oss 1 - opt_or oz 0)))).
+              (V3 0 0 (inject_Z (tf_sl d f + 1 - 1) * opt_or oss 1)))).
   { intros i j. rewrite (frame_vs_tpm_z r c sr sc x y (opt_or oz 0)).
     replace (tf_sl d f + 1 - 1)%Z with (tf_sl d f) by lia.
     rewrite !inject_Z_plus. 
     unfold rotRD, rotation_core; cbn [conv_vec conv_sp normal].
     unfold veq, aapply, mapply, vadd, smul; proj. repeat split; ring. }
   split; [exact GEN|].
-  intros F1 Z0 i j. rewrite GEN.
+  intros F1 i j. rewrite GEN.
   replace (tf_sl d f + 1 - 1)%Z with 0%Z by lia.
   match goal with |- veq (vadd ?q _) _ => destruct q as [qx qy qz] end. unfold veq, vadd; proj.
-  split; [ring|]. split; [ring|]. rewrite Z0. change (inject_Z 0) with 0. ring.
+  split; [ring|]. split; [ring|]. change (inject_Z 0) with 0. ring.
 Qed.
 
 (* ---------------- coplanar pairs are accepted and map to the same physical point ---------------- *)
@@ -261,26 +261,26 @@ Theorem tiled_full_p2p_frame_to_tpm d x y oz r c sr sc oss f :
   (1 <= d_rows d)%Z -> (1 <= d_cols d)%Z -> (1 <= d_tpm_rows d)%Z -> (1 <= d_tpm_cols d)%Z ->
   (1 <= d_focal d)%Z -> (1 <= d_paths d)%Z ->
   (1 <= f <= d_paths d * d_focal d * tf_nt d)%Z ->
-  tf_sl d f = 0%Z -> opt_or oz 0 == 0 ->
+  tf_sl d f = 0%Z ->
   exists t X,
     tiled_full_frame d f = Ok t /\
     for_images_p2p d d (Some f) None false true = Ok X /\
     forall i j, veq (aapply X (V3 i j 0))
                     (V3 (inject_Z (tf_col t) - 1 + i) (inject_Z (tf_row t) - 1 + j) 0).
 Proof.
-  intros W O Hsr Hsc Hr Hc HR HC Hfo Hpa Hf SL0 Z0.
+  intros W O Hsr Hsc Hr Hc HR HC Hfo Hpa Hf SL0.
   pose proof (tiled_full_frame_ok d x y oz r c sr sc oss f W Hsr Hsc Hr Hc HR HC Hfo Hpa Hf) as TF.
   set (C0 := inject_Z (tf_ci d f * d_cols d)) in *. set (R0 := inject_Z (tf_ri d f * d_rows d)) in *.
-  set (z1 := inject_Z (tf_sl d f) * opt_or oss 1) in *.
+  set (z1 := opt_or oz 0 + inject_Z (tf_sl d f) * opt_or oss 1) in *.
   set (fp := aapply (Aff (rotRD r c sr sc 1) (V3 x y z1)) (V3 C0 R0 0)) in *.
   set (pos2 := V3 x y (opt_or oz 0)).
-  assert (Z1 : z1 == 0) by (subst z1; rewrite SL0; change (inject_Z 0) with 0; ring).
+  assert (Z1 : z1 == opt_or oz 0) by (subst z1; rewrite SL0; change (inject_Z 0) with 0; ring).
   assert (S : same_plane fp r c pos2 r c).
   { split; [left; reflexivity|].
     transitivity (C0 * sc * dot r (cross r c) + R0 * sr * dot c (cross r c) + (z1 - opt_or oz 0) * vz (cross r c)).
     - subst fp pos2. unfold rotRD, rotation_core; cbn [conv_vec conv_sp normal].
       unfold aapply, mapply, vadd, vsub, smul, dot, cross; proj. ring.
-    - rewrite Z1, Z0, dot_cross_l, dot_cross_r. ring. }
+    - rewrite Z1, dot_cross_l, dot_cross_r. ring. }
   destruct (p2p_coplanar_accepted fp r c sr sc pos2 r c sr sc O O S Hsr Hsc Hsr Hsc)
     as (T & P & P2 & Rv2 & HT & HP & HP2 & HR2 & K).
   assert (N1 : ~ 1 == 0) by discriminate.
@@ -298,7 +298,7 @@ Proof.
                   (aapply (Aff (rotRD r c sr sc 1) pos2) (V3 (C0 + i) (R0 + j) 0))).
   { subst fp pos2. rewrite (frame_vs_tpm_z r c sr sc x y (opt_or oz 0)).
     match goal with |- veq (vadd ?q _) _ => destruct q as [qx qy qz] end. unfold veq, vadd; proj.
-    split; [ring|]. split; [ring|]. rewrite Z1, Z0. ring. }
+    split; [ring|]. split; [ring|]. rewrite Z1. ring. }
   rewrite (aapply_proper _ _ _ E). rewrite F1.
   subst C0 R0. rewrite !inject_Z_plus. unfold veq; proj. repeat split; ring.
 Qed.
@@ -430,34 +430,17 @@ Definition wsi_example (oz : option Q) : dset :=
        (Some (FGroup (Some (PMeas (ASeq [1 # 2; 1 # 2]) None)) None None None)) None true
        (Some (10, 20, oz)) 4 4 8 8 1 1.
 
-(* REFUTED for the code as it is: when the origin item carries a non-zero Z offset the frame
-   transformer ignores it and the total-pixel-matrix transformer uses it *)
-Example tiled_full_origin_z_refuted :
-  exists d x y oz r c sr sc oss f Fm T t,
-    is_tiled_full d x y (Some oz) r c sr sc oss /\ orthonormal r c /\
-    tiled_full_frame d f = Ok t /\
-    for_image_p2r d (Some f) false = Ok Fm /\ for_image_p2r d None true = Ok T /\
-    ~ veq (aapply Fm (V3 0 0 0)) (aapply T (V3 (inject_Z (tf_col t) - 1) (inject_Z (tf_row t) - 1) 0)) /\
-    for_images_p2p d d (Some f) None false true = Err EValue.
-Proof.
-  exists (wsi_example (Some 5)), 10, 20, 5, (V3 0 1 0), (V3 1 0 0), (1 # 2), (1 # 2), None, 2%Z.
-  eexists. eexists. eexists.
-  split; [unfold is_tiled_full; cbn; repeat split; eexists; split; reflexivity|].
-  split; [unfold orthonormal; vm_compute; repeat split; reflexivity|].
-  split; [vm_compute; reflexivity|]. split; [vm_compute; reflexivity|]. split; [vm_compute; reflexivity|].
-  split; [|vm_compute; reflexivity].
-  intros (_ & _ & H). vm_compute in H. discriminate H.
-Qed.
+Definition wsi5 : dset := wsi_example (Some 5).
 
 (* non-vacuity of the dataset theorems: a concrete TILED_FULL image meets the hypotheses *)
 Example dataset_example :
-  is_tiled_full (wsi_example None) 10 20 None (V3 0 1 0) (V3 1 0 0) (1 # 2) (1 # 2) None /\
+  is_tiled_full wsi5 10 20 (Some 5) (V3 0 1 0) (V3 1 0 0) (1 # 2) (1 # 2) None /\
   orthonormal (V3 0 1 0) (V3 1 0 0) /\
-  (1 <= 4 <= d_paths (wsi_example None) * d_focal (wsi_example None) * tf_nt (wsi_example None))%Z /\
-  tf_sl (wsi_example None) 4 = 0%Z /\
-  run_tiled_full_frame (wsi_example None) 4 = VL [VZ 1; VZ 1; VZ 5; VZ 5; VL [VQ (48 # 4); VQ (88 # 4); VQ (0 # 4)]] /\
-  run_for_images (wsi_example None) (wsi_example None) (Some 4%Z) None false true [[1; 2]]
-  = match run_for_images (wsi_example None) (wsi_example None) (Some 4%Z) None false true [[1; 2]] with
+  (1 <= 4 <= d_paths wsi5 * d_focal wsi5 * tf_nt wsi5)%Z /\
+  tf_sl wsi5 4 = 0%Z /\
+  run_tiled_full_frame wsi5 4 = VL [VZ 1; VZ 1; VZ 5; VZ 5; VL [VQ (48 # 4); VQ (88 # 4); VQ (20 # 4)]] /\
+  run_for_images wsi5 wsi5 (Some 4%Z) None false true [[1; 2]]
+  = match run_for_images wsi5 wsi5 (Some 4%Z) None false true [[1; 2]] with
     | VL [VL [a; _]; b] => VL [VL [a; VL [VL [VQ 5; VQ 6]]]; b] | _ => VErr "shape" end.
 Proof.
   split; [unfold is_tiled_full; cbn; repeat split; eexists; split; reflexivity|].
